@@ -706,8 +706,18 @@ Proof. intros. unfold write_many. apply dappend_wf, open_file_wf, roll_if_needed
 Lemma write_all_wf : forall maxc ts sz d, wf_dir d -> wf_dir (write_all maxc ts sz d).
 Proof. intros. rewrite write_all_eq. apply wf_dput, trim_wf. auto. Qed.
 
+Lemma write_many_rf_wf : forall c lens d, wf_dir d -> wf_dir (write_many_rf c lens d).
+Proof.
+  intros. unfold write_many_rf. cbv zeta. destruct (_ <=? _).
+  - apply open_file_wf. auto.
+  - apply dappend_wf, open_file_wf, open_file_wf. auto.
+Qed.
+
 Lemma step_wf : forall d o, wf_dir d -> wf_dir (step d o).
-Proof. intros d [c ts lens|m ts sz] H; simpl; [apply write_many_wf | apply write_all_wf]; auto. Qed.
+Proof.
+  intros d [c ts lens|c lens|m ts sz] H; simpl;
+    [apply write_many_wf | apply write_many_rf_wf | apply write_all_wf]; auto.
+Qed.
 
 (* ------------------------------------------------------------------ frame lemmas *)
 Section Frame.
@@ -739,6 +749,14 @@ Proof.
   - rewrite open_file_frame by auto. rewrite archive_file_eq, trim_frame by auto.
     rewrite drename_frame by auto. apply open_file_frame. auto.
   - apply open_file_frame. auto.
+Qed.
+
+Lemma write_many_rf_frame : forall c lens d,
+  q (cur_name c) = false -> fq (write_many_rf c lens d) = fq d.
+Proof.
+  intros c lens d Qc. unfold write_many_rf. cbv zeta. destruct (_ <=? _).
+  - apply open_file_frame. auto.
+  - rewrite dappend_frame, !open_file_frame by auto. reflexivity.
 Qed.
 
 Lemma write_all_frame : forall maxc ts sz d,
@@ -880,6 +898,40 @@ Proof.
 Qed.
 End Size.
 
+(* a write whose archiving fails: refused at the limit, a plain append below it *)
+Lemma write_many_rf_linv : forall c lens d, LInv c d -> LInv c (write_many_rf c lens d).
+Proof.
+  intros c lens d [WF H]. unfold write_many_rf. cbv zeta.
+  pose proof (open_file_wf c d WF) as WF0. pose proof (open_file_has c d) as H0.
+  pose proof (open_file_count c d) as C0.
+  destruct (_ <=? _).
+  - split; auto. rewrite H0. lia.
+  - rewrite (open_file_id c (open_file c d)) by auto.
+    destruct (dappend_names_perm (cur_name c) (total_bytes lens) _ WF0) as [WF2 [C2 H2]].
+    split; auto. unfold lcount in *. rewrite C2, H2, H0. lia.
+Qed.
+
+Lemma write_many_rf_sinv : forall c lens d, SInv c d -> SInv c (write_many_rf c lens d).
+Proof.
+  intros c lens d S. apply SInv_iff. apply SInv_iff in S.
+  unfold write_many_rf. cbv zeta. pose proof (P_open_file c d S) as S0.
+  destruct (lmax_size c <=? cur_size c (open_file c d)) eqn:E; auto.
+  apply N.leb_gt in E. rewrite (open_file_id c (open_file c d)) by apply open_file_has.
+  unfold dappend. destruct (dfind (cur_name c) (open_file c d)) eqn:F; auto.
+  apply P_dput; auto. intros _. unfold cur_size in E. rewrite F in E.
+  unfold sz_ok, esize, elast in *. simpl in *. lia.
+Qed.
+
+(* with a failing rename a file at or beyond the limit is never appended to *)
+Lemma write_many_rf_refuses : forall c lens d e,
+  dfind (cur_name c) d = Some e -> lmax_size c <= esize e -> write_many_rf c lens d = d.
+Proof.
+  intros c lens d e F H. unfold write_many_rf. cbv zeta.
+  assert (Hh : dhas (cur_name c) d = true) by (unfold dhas; rewrite F; auto).
+  rewrite (open_file_id c d Hh). unfold cur_size. rewrite F.
+  apply N.leb_le in H. rewrite H. reflexivity.
+Qed.
+
 (* what one write does to the current file: [last] is the number of bytes of this write, and the
    file was below the limit (or empty) before it *)
 Lemma write_many_effect : forall c ts lens d,
@@ -905,7 +957,7 @@ Qed.
    loggers whose names are not prefix-related to its own, and rule dumps *)
 Definition compat (c : logcfg) (o : op) : Prop :=
   match o with
-  | OWrite c' _ _ =>
+  | OWrite c' _ _ | OWriteRF c' _ =>
       c' = c \/ (lmatch c' (cur_name c') = true /\ incomparable (lname c) (lname c') = true)
   | ODump _ _ _ => incomparable (lname c) Consts.rules_dump_search_prefix = true
   end.
@@ -913,13 +965,17 @@ Definition compat (c : logcfg) (o : op) : Prop :=
 Definition Inv (c : logcfg) (d : dir) : Prop := LInv c d /\ SInv c d.
 
 Lemma foreign_frame : forall c o d,
-  compat c o -> (match o with OWrite c' _ _ => c' <> c | _ => True end) ->
+  compat c o -> (match o with OWrite c' _ _ | OWriteRF c' _ => c' <> c | _ => True end) ->
   lfiles c (step d o) = lfiles c d.
 Proof.
-  intros c [c' ts lens|m ts sz] d Hc Hne; simpl in *.
+  intros c [c' ts lens|c' lens|m ts sz] d Hc Hne; simpl in *.
   - destruct Hc as [->|[Hw Hi]]; [contradiction|].
     unfold lfiles. apply (write_many_frame (lmatch c)); auto.
     intros n Hn. unfold lmatch in *. rewrite incomparable_sym in Hi.
+    eapply incomparable_disjoint; eauto.
+  - destruct Hc as [->|[Hw Hi]]; [contradiction|].
+    unfold lfiles. apply (write_many_rf_frame (lmatch c)).
+    unfold lmatch in *. rewrite incomparable_sym in Hi.
     eapply incomparable_disjoint; eauto.
   - unfold lfiles. apply (write_all_frame (lmatch c)).
     + unfold lmatch. rewrite incomparable_sym in Hc.
@@ -953,11 +1009,16 @@ Proof.
   { intros. destruct I as [L S]. split.
     - apply write_many_inv; auto.
     - apply SInv_iff. apply P_write_many; auto. apply L. apply SInv_iff. auto. }
-  destruct o as [c' ts lens|m ts sz].
+  destruct o as [c' ts lens|c' lens|m ts sz].
   - destruct (cfg_eq_dec c' c) as [->|Hne]; [apply Own|].
     apply (frame_inv c d); auto.
     + apply step_wf. apply I.
     + apply foreign_frame; auto.
+  - destruct (cfg_eq_dec c' c) as [->|Hne].
+    + destruct I as [L S]. split; [apply write_many_rf_linv | apply write_many_rf_sinv]; auto.
+    + apply (frame_inv c d); auto.
+      * apply step_wf. apply I.
+      * apply foreign_frame; auto.
   - apply (frame_inv c d); auto.
     + apply step_wf. apply I.
     + apply foreign_frame; simpl; auto.
@@ -1149,7 +1210,7 @@ Qed.
 Definition dcompat (maxc : N) (o : op) : Prop :=
   match o with
   | ODump m _ _ => m = maxc
-  | OWrite c' _ _ =>
+  | OWrite c' _ _ | OWriteRF c' _ =>
       lmatch c' (cur_name c') = true /\ incomparable (lname c') Consts.rules_dump_search_prefix = true
   end.
 
@@ -1157,12 +1218,17 @@ Definition DInv (maxc : N) (d : dir) : Prop := wf_dir d /\ dcount d <= maxc.
 
 Lemma step_dinv : forall maxc o d, 1 <= maxc -> dcompat maxc o -> DInv maxc d -> DInv maxc (step d o).
 Proof.
-  intros maxc [c' ts lens|m ts sz] d H1 Hc [WF Hd]; simpl in *.
+  intros maxc [c' ts lens|c' lens|m ts sz] d H1 Hc [WF Hd]; simpl in *.
   - destruct Hc as [Hw Hi]. split; [apply write_many_wf; auto|].
     unfold dcount in *. rewrite cnt_entries in *.
     rewrite (write_many_frame is_dump); auto.
     intros n Hn. destruct (is_dump n) eqn:E; auto. apply is_dump_prefix in E.
     unfold lmatch in Hn. pose proof (incomparable_disjoint _ _ _ Hi Hn). congruence.
+  - destruct Hc as [Hw Hi]. split; [apply write_many_rf_wf; auto|].
+    unfold dcount in *. rewrite cnt_entries in *.
+    rewrite (write_many_rf_frame is_dump); auto.
+    destruct (is_dump (cur_name c')) eqn:E; auto. apply is_dump_prefix in E.
+    unfold lmatch in Hw. pose proof (incomparable_disjoint _ _ _ Hi Hw). congruence.
   - subst. split; [apply write_all_wf; auto|]. apply write_all_count; auto.
 Qed.
 
@@ -1185,36 +1251,53 @@ Proof.
   intros. unfold dput, dremove. simpl. pose proof (filter_len_le (fun e => negb (beq (ename e) n)) d). lia.
 Qed.
 
+Lemma ev_push1_dir : forall s, evdir (ev_push1 s) = evdir s.
+Proof. intros. unfold ev_push1. destruct (evphase s); auto; destruct (_ <? _); auto. Qed.
+
 Lemma ev_push_dir : forall n s, evdir (N.iter n ev_push1 s) = evdir s.
 Proof.
   intros n s. apply (N.iter_invariant n _ ev_push1 (fun x => evdir x = evdir s)); auto.
-  intros x Hx. unfold ev_push1. destruct (_ <? _); simpl; auto.
+  intros x Hx. rewrite ev_push1_dir. auto.
 Qed.
 
 Lemma ev_push_q : forall n s, evq s <= Consts.event_queue_bound ->
   evq (N.iter n ev_push1 s) <= Consts.event_queue_bound.
 Proof.
   intros n s H. apply (N.iter_invariant n _ ev_push1 (fun x => evq x <= Consts.event_queue_bound)); auto.
-  intros x Hx. unfold ev_push1. destruct (evq x <? Consts.event_queue_bound) eqn:E; simpl; auto.
-  apply N.ltb_lt in E. lia.
+  intros x Hx. unfold ev_push1.
+  destruct (evphase x); auto; destruct (evq x <? Consts.event_queue_bound) eqn:E; simpl; auto;
+    apply N.ltb_lt in E; lia.
+Qed.
+
+Lemma ev_flush_count : forall cap ts s, ev_count (ev_flush cap ts s) <= N.max (ev_count s) cap.
+Proof.
+  intros. unfold ev_flush, ev_count. destruct (evq s =? 0); [lia|].
+  destruct (cap <=? N.of_nat (length (evdir s))) eqn:E; cbn [evdir]; [lia|].
+  apply N.leb_gt in E. pose proof (length_dput_le (ts ++ ev_ext) (evq s) 0 (evdir s)). lia.
+Qed.
+
+Lemma ev_flush_q : forall cap ts s, evq (ev_flush cap ts s) <= evq s.
+Proof.
+  intros. unfold ev_flush. destruct (evq s =? 0); [lia|]. destruct (_ <=? _); simpl; lia.
 Qed.
 
 Lemma ev_step_count : forall cap s o, ev_count (ev_step cap s o) <= N.max (ev_count s) cap.
 Proof.
-  intros cap s [n|ts|]; simpl; unfold ev_count.
-  - rewrite ev_push_dir. lia.
-  - unfold ev_tick. destruct (evq s =? 0); [lia|].
-    destruct (cap <=? N.of_nat (length (evdir s))) eqn:E; cbn [evdir]; [lia|].
-    apply N.leb_gt in E. pose proof (length_dput_le (ts ++ ev_ext) (evq s) 0 (evdir s)). lia.
-  - simpl. lia.
+  intros cap s [n|ts| |]; simpl.
+  - unfold ev_count. rewrite ev_push_dir. lia.
+  - unfold ev_tick. pose proof (ev_flush_count cap ts s). destruct (evphase s); auto.
+    unfold ev_count in *. simpl. lia.
+  - unfold ev_stop, ev_count. destruct (evphase s); simpl; lia.
+  - unfold ev_count. simpl. lia.
 Qed.
 
 Lemma ev_step_q : forall cap s o, evq s <= Consts.event_queue_bound ->
   evq (ev_step cap s o) <= Consts.event_queue_bound.
 Proof.
-  intros cap s [n|ts|] H; simpl.
+  intros cap s [n|ts| |] H; simpl.
   - apply ev_push_q. auto.
-  - unfold ev_tick. destruct (evq s =? 0); auto. destruct (_ <=? _); simpl; lia.
+  - unfold ev_tick. pose proof (ev_flush_q cap ts s). destruct (evphase s); simpl; lia.
+  - unfold ev_stop. destruct (evphase s); simpl; lia.
   - lia.
 Qed.
 
@@ -1227,21 +1310,35 @@ Proof.
   - apply IHops; auto; [|apply ev_step_q; auto]. pose proof (ev_step_count cap s a). lia.
 Qed.
 
+(* at the cap a flush -- the periodic one AND the one of the stop pass -- drops the queued events
+   and leaves the directory alone *)
 Lemma ev_tick_drop : forall cap ts s,
-  cap <= ev_count s -> evq s <> 0 -> ev_tick cap ts s = {| evdir := evdir s; evq := 0 |}.
+  cap <= ev_count s -> evdir (ev_tick cap ts s) = evdir s /\ (evphase s <> Done -> evq (ev_tick cap ts s) = 0).
 Proof.
-  intros cap ts s Hc Hq. unfold ev_tick, ev_count in *.
-  apply N.eqb_neq in Hq. rewrite Hq. apply N.leb_le in Hc. rewrite Hc. reflexivity.
+  intros cap ts s Hc. unfold ev_tick, ev_flush, ev_count in *.
+  apply N.leb_le in Hc. rewrite Hc.
+  destruct (evphase s); destruct (evq s =? 0) eqn:Q; simpl; try apply N.eqb_eq in Q; split; auto; congruence.
 Qed.
 
 Lemma ev_tick_write : forall cap ts s,
-  ev_count s < cap -> evq s <> 0 ->
+  ev_count s < cap -> evq s <> 0 -> evphase s <> Done ->
   dfind (ts ++ ev_ext) (evdir (ev_tick cap ts s)) = Some (ts ++ ev_ext, evq s, 0) /\
   evq (ev_tick cap ts s) = 0.
 Proof.
-  intros cap ts s Hc Hq. unfold ev_tick, ev_count in *.
-  apply N.eqb_neq in Hq. rewrite Hq. apply N.leb_gt in Hc. rewrite Hc. simpl.
-  split; auto. apply dfind_dput_same.
+  intros cap ts s Hc Hq Hp. unfold ev_tick, ev_flush, ev_count in *.
+  apply N.eqb_neq in Hq. rewrite Hq. apply N.leb_gt in Hc. rewrite Hc.
+  destruct (evphase s); simpl; try congruence; split; auto; apply dfind_dput_same.
+Qed.
+
+(* after the loop has left (stop seen), nothing changes any more until a restart *)
+Lemma ev_done_frozen : forall cap s o,
+  evphase s = Done -> o <> ERestart -> ev_step cap s o = s.
+Proof.
+  intros cap s [n|ts| |] H Hr; simpl; try congruence.
+  - apply (N.iter_invariant n _ ev_push1 (fun x => x = s)); auto.
+    intros x ->. unfold ev_push1. rewrite H. auto.
+  - unfold ev_tick. rewrite H. auto.
+  - unfold ev_stop. rewrite H. auto.
 Qed.
 
 (* ------------------------------------------------------------------ statements used by Props/C19.v *)
